@@ -32,6 +32,7 @@ func checkC14(c *Ctx, r *Report) {
 	borrow(c, r, c12R4, "C12.R4.pool-put-size", "C14.R1.pool-put-size", 4, "every buffer returned to the UDP pool is re-sliced to srv.UDPSize", nil, "a later, larger datagram read into the short buffer is cut and never reaches the handler, although it passes the accept policy and would decode")
 	poolGetSize(c, r, "C14.R1.pool-get-size", "after a restart with a larger UDPSize the pool still hands out the old, shorter buffers: datagrams that fit the configured size are cut, fail to decode and never reach the handler")
 	muxAnyQuestion(c, r, "C14.R5.any-question")
+	defaultsSameField(c, r, "C14.R3.defaults-same-field")
 }
 
 func isHandlerInvoke(in ssa.Instruction) bool {
